@@ -93,3 +93,100 @@ package sqlite
 //@        cnt(y3) == rowsTotal(payload(rows)) && !rowsFailed(payload(rows))
 //@   ensures [C11.rows.cancel] cnt(y1) <= 1 && (cnt(y1) == 1 ==> lastarg(y1, 1) == nil && lastarg(y1, 2, Iface) != nil && ctxSeenDone(ctx))
 //@   ensures [C11.rows.closed] cnt(closeCall) == 1
+
+// ---------------------------------------------------------------- statements
+// The five statement texts.  The assumed meaning of each text is documented in
+// /verif/contracts/deps_sql.spec; changing a text invalidates that assumption,
+// so the texts are pinned here.
+//@ def SQL_APPEND() "INSERT INTO events (type, data, timestamp) VALUES (?, ?, ?)"
+//@ def SQL_READ() "SELECT position, type, data, timestamp FROM events WHERE position > ? ORDER BY position LIMIT ?"
+//@ def SQL_READFROM() "SELECT position, type, data, timestamp FROM events WHERE position > ? ORDER BY position"
+//@ def SQL_SAVE() "INSERT INTO subscription_positions (subscription_id, position, updated_at)\n\t\t\tVALUES (?, ?, CURRENT_TIMESTAMP)\n\t\t\tON CONFLICT(subscription_id) DO UPDATE SET position = excluded.position, updated_at = CURRENT_TIMESTAMP"
+//@ def SQL_LOAD() "SELECT position FROM subscription_positions WHERE subscription_id = ?"
+//@ def StmtInv(s) s.appendStmt != nil && s.readStmt != nil && s.readFromStmt != nil && s.saveOffsetStmt != nil && s.loadOffsetStmt != nil &&
+//@     stmtText(s.appendStmt) == SQL_APPEND() && stmtText(s.readStmt) == SQL_READ() && stmtText(s.readFromStmt) == SQL_READFROM() &&
+//@     stmtText(s.saveOffsetStmt) == SQL_SAVE() && stmtText(s.loadOffsetStmt) == SQL_LOAD()
+
+//@ func (*SQLiteStore).prepareStatements
+//@   props C10
+//@   requires s != nil && s.db != nil
+//@   loop 1 invariant [idx] rangeindex < len(stmts) && -1 <= rangeindex
+//@   loop 1 invariant [done] (rangeindex >= 0 ==> s.appendStmt != nil && stmtText(s.appendStmt) == SQL_APPEND()) &&
+//@        (rangeindex >= 1 ==> s.readStmt != nil && stmtText(s.readStmt) == SQL_READ()) &&
+//@        (rangeindex >= 2 ==> s.readFromStmt != nil && stmtText(s.readFromStmt) == SQL_READFROM()) &&
+//@        (rangeindex >= 3 ==> s.saveOffsetStmt != nil && stmtText(s.saveOffsetStmt) == SQL_SAVE()) &&
+//@        (rangeindex >= 4 ==> s.loadOffsetStmt != nil && stmtText(s.loadOffsetStmt) == SQL_LOAD())
+//@   ensures [C10.sql.pinned] result == nil ==> StmtInv(s)
+
+// ---------------------------------------------------------------- callbacks of the store
+//@ method MetricsHook.OnAppend(h, d, err)
+//@   effect reentrant
+//@ method MetricsHook.OnRead(h, d, n, err)
+//@   effect reentrant
+//@ method MetricsHook.OnSaveOffset(h, d, err)
+//@   effect reentrant
+//@ method MetricsHook.OnLoadOffset(h, d, err)
+//@   effect reentrant
+//@ method Logger.Debug(l, msg, args)
+//@   effect reentrant
+
+//@ immutable {C10,C11} SQLiteStore.db SQLiteStore.cfg SQLiteStore.logger SQLiteStore.metricsHook SQLiteStore.appendStmt SQLiteStore.readStmt SQLiteStore.readFromStmt SQLiteStore.saveOffsetStmt SQLiteStore.loadOffsetStmt
+//@ initwriter (*SQLiteStore).prepareStatements
+
+//@ event qStmt := call (*Stmt).QueryContext
+//@ event qDB := call (*DB).QueryContext
+//@ event execStmtCall := call (*Stmt).ExecContext
+//@ event qRow := call (*Stmt).QueryRowContext
+//@ event onAppend := call MetricsHook.OnAppend
+//@ event onRead := call MetricsHook.OnRead
+//@ event scanEventsCall := call (*SQLiteStore).scanEvents
+
+// ---------------------------------------------------------------- Append
+//@ func (*SQLiteStore).Append
+//@   props C10 C09
+//@   requires s != nil && ctx != nil && event != nil && StmtInv(s)
+//@   ensures [C10.sqlite.append.exec] cnt(execStmtCall) == 1 && lastarg(execStmtCall, 0) == s.appendStmt && lastarg(execStmtCall, 1, Iface) == ctx
+//@   ensures [C10.sqlite.append.ok] lastresi(execStmtCall, 1, Iface) == nil ==> err == nil && result0 == dec(lastInsertId(payload(lastresi(execStmtCall, 0, Iface))))
+//@   ensures [C10.sqlite.append.args] lastresi(execStmtCall, 1, Iface) == nil ==>
+//@        execArg(payload(lastresi(execStmtCall, 0, Iface)), 0) == boxOf(string, old(event.Type)) &&
+//@        execArg(payload(lastresi(execStmtCall, 0, Iface)), 1) == boxOf(json.RawMessage, old(event.Data))
+//@   ensures [C10.sqlite.append.fail] lastresi(execStmtCall, 1, Iface) != nil ==> err != nil && result0 == ""
+//@   ensures [C10.sqlite.append.metrics] cnt(onAppend) == ite(s.metricsHook != nil, 1, 0)
+
+// ---------------------------------------------------------------- Read
+//@ def posOfOffset(o) ite(o == "", 0, undec(o))
+//@ func (*SQLiteStore).Read
+//@   props C10
+//@   requires s != nil && ctx != nil && StmtInv(s)
+//@   ensures [C10.sqlite.read.invalid] from != "" && !isDec(from) ==> err != nil && cnt(qStmt) == 0 && result1 == from && len(result0) == 0
+//@   ensures [C10.sqlite.read.query] from == "" || isDec(from) ==> cnt(qStmt) == 1 && lastarg(qStmt, 0) == ite(limit <= 0, s.readFromStmt, s.readStmt)
+//@   ensures [C10.sqlite.read.args] (from == "" || isDec(from)) && lastresi(qStmt, 1, Iface) == nil ==>
+//@        payload(rowsArg(lastresi(qStmt, 0), 0)) == posOfOffset(from) && (limit > 0 ==> payload(rowsArg(lastresi(qStmt, 0), 1)) == limit)
+//@   ensures [C10.sqlite.read.qerr] cnt(qStmt) == 1 && lastresi(qStmt, 1, Iface) != nil ==> err != nil && result1 == from && len(result0) == 0
+//@   ensures [C10.sqlite.read.result] err == nil ==> cnt(qStmt) == 1 && len(result0) == rowsTotal(lastresi(qStmt, 0)) &&
+//@        (forall k int :: {result0[k]} 0 <= k && k < len(result0) ==> result0[k] != nil && result0[k].Offset == dec(scancolInt(lastresi(qStmt, 0), k, 0)))
+//@   ensures [C10.sqlite.read.next] err == nil ==> result1 == ite(len(result0) > 0, result0[len(result0) - 1].Offset, from)
+//@   ensures [C10.sqlite.read.after] err == nil ==> (forall k int :: {result0[k]} 0 <= k && k < len(result0) ==>
+//@        scancolInt(lastresi(qStmt, 0), k, 0) > posOfOffset(from) && (k > 0 ==> scancolInt(lastresi(qStmt, 0), k, 0) > scancolInt(lastresi(qStmt, 0), k - 1, 0)))
+//@   ensures [C10.sqlite.read.limit] err == nil && limit > 0 ==> len(result0) <= limit
+
+// ---------------------------------------------------------------- SaveOffset / LoadOffset
+//@ event onSave := call MetricsHook.OnSaveOffset
+//@ event onLoad := call MetricsHook.OnLoadOffset
+//@ func (*SQLiteStore).SaveOffset
+//@   props C10 C12
+//@   requires s != nil && ctx != nil && StmtInv(s)
+//@   ensures [C10.sqlite.save.invalid] offset != "" && !isDec(offset) ==> result != nil && cnt(execStmtCall) == 0
+//@   ensures [C10.sqlite.save.exec] offset == "" || isDec(offset) ==> cnt(execStmtCall) == 1 && lastarg(execStmtCall, 0) == s.saveOffsetStmt
+//@   ensures [C10.sqlite.save.args] (offset == "" || isDec(offset)) && lastresi(execStmtCall, 1, Iface) == nil ==>
+//@        execArg(payload(lastresi(execStmtCall, 0, Iface)), 0) == boxOf(string, subscriptionID) &&
+//@        payload(execArg(payload(lastresi(execStmtCall, 0, Iface)), 1)) == posOfOffset(offset)
+//@   ensures [C10.sqlite.save.err] cnt(execStmtCall) == 1 ==> (result != nil <==> lastresi(execStmtCall, 1, Iface) != nil)
+
+//@ func (*SQLiteStore).LoadOffset
+//@   props C10 C12
+//@   requires s != nil && ctx != nil && StmtInv(s)
+//@   ensures [C10.sqlite.load.query] cnt(qRow) == 1 && lastarg(qRow, 0) == s.loadOffsetStmt && rowsArg(lastres(qRow), 0) == boxOf(string, subscriptionID)
+//@   ensures [C10.sqlite.load.found] !scanFails(lastres(qRow), 0) ==> err == nil && result0 == dec(scancolInt(lastres(qRow), 0, 0))
+//@   ensures [C10.sqlite.load.err] err != nil ==> result0 == "" && scanFails(lastres(qRow), 0)
+//@   ensures [C10.sqlite.load.none] err == nil && scanFails(lastres(qRow), 0) ==> result0 == ""
